@@ -78,6 +78,7 @@ class Registry:
         self.invariants: dict[str, list[str]] = {}
         self.assumed: list[dict] = []  # free-text records of assumed (unchecked) contracts
         self.ext_consts: dict[str, object] = {}  # dotted external name -> python constant (assumed)
+        self.ext_exc: dict[str, str] = {}  # exception class of a library -> its parent class name
 
     def contract(self, target, **kw) -> FunSpec:
         fs = FunSpec(target, **kw)
@@ -98,6 +99,10 @@ def fields(target, **kw):
 
 def history(target, *clauses):
     REG.history.setdefault(target, []).extend(clauses)
+
+
+def ext_exception(name, parent="Exception"):
+    REG.ext_exc[name] = parent
 
 
 def ext_const(name, value):
